@@ -584,6 +584,15 @@ def value_iterate(ip, v):
 
 
 def obj_getattr(ip, obj, name):
+  if obj.attrs.get("__var__") is True:
+    if name == "assign":
+      return BoundMethod(obj, TABLE["tf.Variable"].ns["assign"])
+    if name in ("numpy", "eval", "read_value"):
+      return Builtin(name, lambda ip_, *a, **k: obj.attrs["value"])
+    if name in ("shape",):
+      return ()
+    if name == "dtype":
+      return "float32"
   h = obj.attrs.get("__getattr__")
   if h is not None:
     return h(ip, obj, name)
@@ -716,7 +725,32 @@ const("np.float64", ExtClass("np.float64", {"__new__": Builtin("np.float64", lam
 const("np.int32", ExtClass("np.int32", {"__new__": Builtin("np.int32", lambda ip, v: trunc_int(ip, v))}, check=lambda v: False))
 const("np.int64", ExtClass("np.int64", {"__new__": Builtin("np.int64", lambda ip, v: trunc_int(ip, v))}, check=lambda v: False))
 const("np.ndarray", ExtClass("np.ndarray", check=lambda v: isinstance(v, SNum) and isinstance(v.tag, dict) and bool(v.tag.get("ndarray"))))
-const("tf.Variable", ExtClass("tf.Variable", check=lambda v: isinstance(v, SNum) and isinstance(v.tag, dict) and bool(v.tag.get("variable"))))
+def _var_new(ip, initial_value=None, *a, **k):
+  v = initial_value
+  if isinstance(v, (FuncVal, BoundMethod, Builtin)):
+    v = ip.call(v, [], {})
+  cell = Obj(TABLE["tf.Variable"], {"__var__": True, "value": v}, label="tf.Variable")
+  return cell
+
+
+def _var_assign(ip, cell, v, *a, **k):
+  ip.setattr(cell, "value", ip.deref(v))
+  return cell
+
+
+_VARCLS = ExtClass("tf.Variable", {"__new__": Builtin("tf.Variable", _var_new)},
+                   check=lambda v: (isinstance(v, Obj) and v.attrs.get("__var__") is True) or (isinstance(v, SNum) and isinstance(v.tag, dict) and bool(v.tag.get("variable"))))
+_b = Builtin("assign", _var_assign)
+_b.is_method = True
+_VARCLS.ns["assign"] = _b
+for _n in ("numpy", "eval", "read_value", "value"):
+  _b = Builtin(_n, lambda ip, cell, *a, **k: cell.attrs["value"])
+  _b.is_method = True
+  _VARCLS.ns[_n + "_m"] = _b
+const("tf.Variable", _VARCLS)
+const("tf.keras.callbacks.Callback", ExtClass("tf.keras.callbacks.Callback", check=lambda v: False))
+TABLE["tf.summary.create_file_writer"] = Builtin("create_file_writer", lambda ip, *a, **k: None)
+TABLE["tf.summary.scalar"] = Builtin("summary.scalar", lambda ip, *a, **k: None)
 const("tf.Tensor", ExtClass("tf.Tensor", check=lambda v: isinstance(v, SNum) and v.pytype == "tensor"))
 const("tf.Module", ExtClass("tf.Module", check=lambda v: False))
 const("tf.float32", "float32")
@@ -904,9 +938,19 @@ def _np_min(ip, *a, **k):
   return _minmax(ip, False, a, {})
 
 
+POWR = z3.Function("powr", z3.RealSort(), z3.RealSort(), z3.RealSort())
+
+
 @model("np.power")
 def _np_power(ip, a, b):
-  return ip.binop(ast.Pow(), a, b)
+  if conc(a) and conc(b):
+    return float(a) ** float(b) if not (isinstance(a, int) and isinstance(b, int)) else a ** b
+  if conc(a) and a == 2:
+    return ip.binop(ast.Pow(), a, b)
+  if conc(b) and isinstance(b, int) and 0 <= b <= 4:
+    return ip.binop(ast.Pow(), a, b)
+  # v ** e for real v, e: uninterpreted with instantiated monotonicity/endpoint axioms (vc.powr_axioms)
+  return SNum(POWR(R(ip.num(a)), R(ip.num(b))), "float")
 
 
 @model("np.array", "np.asarray")
@@ -1052,6 +1096,33 @@ def _tf_where(ip, c, a=None, b=None):
   return SNum(z3.simplify(z3.If(ce, ea, eb)), "tensor", g)
 
 
+@model("tf.logical_or")
+def _tf_or(ip, a, b):
+  if isinstance(a, Term) or isinstance(b, Term):
+    return Term("logical_or", (a, b))
+  if isinstance(a, bool) and isinstance(b, bool):
+    return a or b
+  return SBool(z3.simplify(z3.Or(ip.as_bool(a), ip.as_bool(b))), "tensor")
+
+
+@model("tf.logical_and")
+def _tf_and(ip, a, b):
+  if isinstance(a, Term) or isinstance(b, Term):
+    return Term("logical_and", (a, b))
+  if isinstance(a, bool) and isinstance(b, bool):
+    return a and b
+  return SBool(z3.simplify(z3.And(ip.as_bool(a), ip.as_bool(b))), "tensor")
+
+
+@model("tf.logical_not")
+def _tf_not(ip, a):
+  if isinstance(a, Term):
+    return Term("logical_not", (a,))
+  if isinstance(a, bool):
+    return not a
+  return SBool(z3.simplify(z3.Not(ip.as_bool(a))), "tensor")
+
+
 def _clip(ip, x, lo, hi):
   if isinstance(x, Term) or isinstance(lo, Term) or isinstance(hi, Term):
     return Term("clip", (x, lo, hi))
@@ -1152,6 +1223,11 @@ def _k_pow(ip, a, b):
     return Term("pow", (a, b))
   r = ip.binop(ast.Pow(), a, b)
   return T(ip, r)
+
+
+@model("K.get_uid")
+def _k_get_uid(ip, prefix=""):
+  return 1
 
 
 @model("K.epsilon")
